@@ -13,8 +13,8 @@ META = {
         "quick": {"tweak": "all internal keys d in [1,N-1] (both parities), merkle root absent or any 32 bytes",
                   "tree": "all binary tree shapes with 1..4 leaves, leaf scripts = one symbolic push of 1..2 bytes + an opcode, leaf version 0xC0 (and 0xC2 for n <= 2) shared by the leaves, "
                           "pairwise different leaf scripts; every leaf of every tree",
-                  "tamper": "every single-byte position of a control block for a 3-leaf tree, replacement value symbolic"},
-        "thorough": {"tree": "all shapes with 1..6 leaves"}},
+                  "tamper": "byte positions {0,1,16,32,33,64,65,96} (version/parity byte, first/middle/last byte of the internal key and of each path hash) of a 97-byte control block of a 3-leaf tree, replacement value symbolic"},
+        "thorough": {"tree": "all shapes with 1..6 leaves", "tamper": "every byte position 0..96"}},
     "outside": ["the binding of (internal key, root) -> output key and collision resistance of tagged hashes (assumed, listed)",
                 "tweak values t >= N (probability 2^-128; BIP341 fails there)", "trees with more than 6 leaves"],
     "stubs": ["abstract prime-order group (symx/field.py)", "SHA-256 uninterpreted on symbolic input (tag prefixes hashed for real)"],
@@ -213,8 +213,9 @@ def _tree_path(e, shape, n, ver=0xC0):
     return "ok"
 
 
-def ob_tree(n):
-    runs = [sym_run(lambda: _tree_path(sh, n, ver), mode="int", timeout_ms=60000, max_paths=3000) for sh in shapes(n) for ver in ((0xC0, 0xC2) if n <= 2 else (0xC0,))]
+def ob_tree(n, part=0, parts=1):
+    shs = [sh for k, sh in enumerate(shapes(n)) if k % parts == part]
+    runs = [sym_run(lambda: _tree_path(sh, n, ver), mode="int", timeout_ms=60000, max_paths=3000) for sh in shs for ver in ((0xC0, 0xC2) if n <= 2 else (0xC0,))]
     m = merge_runs(runs)
     m["sample"] = {"leaves": n, "shapes": len(shapes(n)), "leaf scripts": "<1-2 symbolic bytes> OP_CHECKSIG, symbolic even versions"}
     return m
@@ -277,6 +278,9 @@ def _tamper_path(e, pos):
     d = SI.var("d", 1, N - 1)
     Ppt = e.point(d)
     pushes = [SBytes.sym(f"leaf{i}", 1) for i in range(3)]
+    for i in range(3):
+        for j in range(i + 1, 3):
+            assume(pushes[i] != pushes[j])
     scripts = [sc.Script([pushes[i], 0xAC]) for i in range(3)]
     leaves = [tm.TapLeaf(scripts[i], 0xC0) for i in range(3)]
     tree = tm.TapBranch(leaves[0], tm.TapBranch(leaves[1], leaves[2]))
@@ -303,8 +307,8 @@ def _tamper_path(e, pos):
     return "changed"
 
 
-def ob_tamper():
-    runs = [sym_run(lambda: _tamper_path(pos), mode="int", timeout_ms=60000) for pos in range(0, 97, 1)]
+def ob_tamper(positions):
+    runs = [sym_run(lambda: _tamper_path(pos), mode="bv", timeout_ms=60000) for pos in positions]
     m = merge_runs(runs)
     m["sample"] = {"control block": "97 bytes (3-leaf tree, depth-2 leaf)", "alteration": "one byte position, symbolic different value"}
     return m
@@ -318,6 +322,10 @@ def obligations(tier):
     q = tier == "quick"
     obs = [Ob("O1-tweak", ob_tweak, replay="tweak")]
     for n in (range(1, 5) if q else range(1, 7)):
-        obs.append(Ob("O2O3-tree", ob_tree, {"n": n}, replay="tree", budget_s=2400))
-    obs.append(Ob("O4-tamper", ob_tamper, replay="tamper", budget_s=1500))
+        parts = len(shapes(n))
+        for part in range(parts):
+            obs.append(Ob("O2O3-tree", ob_tree, {"n": n, "part": part, "parts": parts}, replay="tree", budget_s=3000))
+    pos = [0, 1, 16, 32, 33, 64, 65, 96] if q else list(range(97))
+    for i in range(0, len(pos), 2 if q else 7):
+        obs.append(Ob("O4-tamper", ob_tamper, {"positions": tuple(pos[i:i + (2 if q else 7)])}, replay="tamper", budget_s=1500))
     return obs
